@@ -1047,7 +1047,8 @@ class LieTensor(Tensor):
         r'''
         See :meth:`pypose.add`
         '''
-        return self.clone().add_(other = alpha * other)
+        shape = torch.broadcast_shapes(self.shape[:-1], other.shape[:-1]) + self.shape[-1:]
+        return self.expand(shape).clone().add_(other = alpha * other)
 
     def add_(self, other, alpha=1):
         r'''
